@@ -2835,6 +2835,11 @@ func hijackConnHandler(ctx *RequestCtx, r io.Reader, c net.Conn, s *Server, h Hi
 	if !s.KeepHijackedConns {
 		c.Close()
 		s.releaseHijackConn(hjc)
+	} else if s.ReduceMemoryUsage {
+		// With ReduceMemoryUsage the buffered reader of the connection reads
+		// through ctx.fbr (see acquireByteReader), and the kept connection
+		// still owns that reader: ctx must not be recycled.
+		return
 	}
 	s.releaseCtx(ctx)
 }
